@@ -394,6 +394,21 @@ func genC15(r *Runner) {
 			}
 		}
 	}
+	// 3b. an authority outside its validity that dates its token into it
+	for _, f := range formats {
+		for _, m := range []string{"leaf-expired", "leaf-not-yet-valid", "root-expired", "root-not-yet-valid", "all-expired", ""} {
+			for _, b := range []string{"gentime-inside-leaf-validity", "gentime-inside-leaf-validity-with-signing-time-attr", "gentime-a-year-ago", "gentime-in-a-year", "good-signing-time-attr"} {
+				for n := 1; n <= 3; n++ {
+					if strings.HasPrefix(m, "root") && n < 2 {
+						continue
+					}
+					t := good()
+					t.behaviour, t.tsaLen, t.tsaMut = b, n, m
+					jobs = append(jobs, base(f, true, "ec256-0", signature.SigningSchemeX509, t))
+				}
+			}
+		}
+	}
 	// 4. revocation-result vectors: all of {OK, NonRevokable, Unknown, Revoked}^m for m <= 4 against chains of n <= 4
 	for _, f := range formats {
 		for n := 1; n <= 4; n++ {
